@@ -77,24 +77,31 @@ static void build(Fixture<HexM> &f) {
     f.props();
 }
 
-// "big" fixtures: a vertex (index 0) with many incident cells, so that size-dependent code paths of the queries are reached
-// (8 tets around the centre of an octahedron; 2x2x2 block of hexes around the centre vertex)
+// "big" fixtures: a vertex (index 0) with many incident entities, so that size-dependent code paths of the queries are reached
+// (poly/tet: a wheel - hub 0, 18 rim vertices, top and bottom apex, 36 tets, hub valence 20; hex: 2x2x2 block around the centre vertex)
 static bool g_big = false;
+static const int WHEEL = 18;
 static void build_big(Fixture<PolyM> &f) {
     auto &m = f.m;
     std::vector<VertexHandle> v;
     v.push_back(m.add_vertex(Vec3d(0, 0, 0)));
-    for (int ax = 0; ax < 3; ++ax) for (int sgn = 1; sgn >= -1; sgn -= 2) { Vec3d p(0, 0, 0); p[ax] = sgn * (1 + 0.25 * ax); v.push_back(m.add_vertex(p)); }
+    for (int i = 0; i < WHEEL; ++i) v.push_back(m.add_vertex(Vec3d(10 + i % 3, i, (i * 7) % 5)));
+    int T = (int)v.size(); v.push_back(m.add_vertex(Vec3d(0, 0, 9)));
+    int B = (int)v.size(); v.push_back(m.add_vertex(Vec3d(0, 0, -9)));
     auto tet = [&](int a, int b, int c, int d) { m.add_cell({hf_of(m, {v[a], v[b], v[c]}), hf_of(m, {v[a], v[c], v[d]}), hf_of(m, {v[a], v[d], v[b]}), hf_of(m, {v[b], v[d], v[c]})}); };
-    for (int sx = 0; sx < 2; ++sx) for (int sy = 0; sy < 2; ++sy) for (int sz = 0; sz < 2; ++sz) { int X = 1 + sx, Y = 3 + sy, Z = 5 + sz; if ((sx + sy + sz) % 2 == 0) tet(0, X, Y, Z); else tet(0, Y, X, Z); }
+    for (int i = 0; i < WHEEL; ++i) tet(0, 1 + i, 1 + (i + 1) % WHEEL, T);
+    for (int i = 0; i < WHEEL; ++i) tet(0, 1 + (i + 1) % WHEEL, 1 + i, B);
     f.props();
 }
 static void build_big(Fixture<TetM> &f) {
     auto &m = f.m;
     std::vector<VertexHandle> v;
     v.push_back(m.add_vertex(Vec3d(0, 0, 0)));
-    for (int ax = 0; ax < 3; ++ax) for (int sgn = 1; sgn >= -1; sgn -= 2) { Vec3d p(0, 0, 0); p[ax] = sgn * (1 + 0.25 * ax); v.push_back(m.add_vertex(p)); }
-    for (int sx = 0; sx < 2; ++sx) for (int sy = 0; sy < 2; ++sy) for (int sz = 0; sz < 2; ++sz) { int X = 1 + sx, Y = 3 + sy, Z = 5 + sz; if ((sx + sy + sz) % 2 == 0) m.add_cell(v[0], v[X], v[Y], v[Z]); else m.add_cell(v[0], v[Y], v[X], v[Z]); }
+    for (int i = 0; i < WHEEL; ++i) v.push_back(m.add_vertex(Vec3d(10 + i % 3, i, (i * 7) % 5)));
+    int T = (int)v.size(); v.push_back(m.add_vertex(Vec3d(0, 0, 9)));
+    int B = (int)v.size(); v.push_back(m.add_vertex(Vec3d(0, 0, -9)));
+    for (int i = 0; i < WHEEL; ++i) m.add_cell(v[0], v[1 + i], v[1 + (i + 1) % WHEEL], v[T]);
+    for (int i = 0; i < WHEEL; ++i) m.add_cell(v[0], v[1 + (i + 1) % WHEEL], v[1 + i], v[B]);
     f.props();
 }
 static void build_big(Fixture<HexM> &f) {
@@ -127,6 +134,7 @@ template <class M> void query(const Fixture<M> &f, int q, Log &l) {
         std::vector<HalfEdgeHandle> hs;
         for (auto a : m.halfedges()) if (hs.size() < 40) hs.push_back(a);
         for (auto a : vs) for (auto b : vs) l << m.find_halfedge(a, b).idx();
+        for (int k = 1; k <= 3 && k < (int)m.n_vertices(); ++k) { VertexHandle last((int)m.n_vertices() - k); l << m.find_halfedge(VertexHandle(0), last).idx() << m.find_halfedge(last, VertexHandle(0)).idx(); }
         for (auto a : vs) for (auto b : vs) for (auto c : vs) if (a != b && b != c && a != c) { l << m.find_halfface({a, b, c}).idx() << m.find_halfface_extensive({a, b, c}).idx(); for (auto ch : m.cells()) l << m.find_halfface_in_cell({a, b, c}, ch).idx(); }
         for (auto a : hs) for (auto b : hs) if (a.idx() % 3 == 0) l << m.find_halfface(std::vector<HalfEdgeHandle>{a, b}).idx();
         for (auto ch : m.cells()) for (auto a : vs) for (auto b : vs) l << m.find_halfedge_in_cell(a, b, ch).idx();
@@ -165,7 +173,7 @@ template <class M> void micro(const Fixture<M> &f, int q, Log &l) {
     case 1: drain(l, m.vf_iter(v1)); break;
     case 2: drain(l, m.hehf_iter(he0)); drain(l, m.hec_iter(he1)); break;
     case 3: l << m.find_halfface({v0, v1, v2}).idx() << m.find_halfface({v2, v1, v0}).idx(); break;
-    case 4: l << m.find_halfface_extensive({v0, v2, v1}).idx() << m.find_halfedge(v1, v0).idx(); break;
+    case 4: l << m.find_halfface_extensive({v0, v2, v1}).idx() << m.find_halfedge(v1, v0).idx() << m.find_halfedge(v0, VertexHandle((int)m.n_vertices() - 1)).idx(); break;
     case 5: l << m.next_halfedge_in_halfface(he0, hodd).idx() << m.prev_halfedge_in_halfface(he0, hodd).idx(); break;
     case 6: l << m.next_halfedge_in_halfface(he1, heven).idx() << m.prev_halfedge_in_halfface(he1, heven).idx(); break;
     case 7: for (auto he : m.halfface(hodd).halfedges()) l << he.idx(); for (auto he : m.opposite_halfface(heven).halfedges()) l << he.idx(); l << m.halfedge(he0).to_vertex().idx(); break;
